@@ -44,7 +44,8 @@ def catalog():
     out = {}
     combos = [["retry"], ["map"], ["flat_map"], ["poll"], ["throttle1"], ["throttle2"], ["timeout"], ["cos"],
               ["retry", "map"], ["map", "retry"], ["retry", "throttle1"], ["throttle1", "retry"], ["poll", "retry"], ["retry", "timeout"],
-              ["timeout", "retry"], ["flat_map", "retry", "cos"], ["retry", "retry"], ["throttle2", "poll", "map"]]
+              ["timeout", "retry"], ["flat_map", "retry", "cos"], ["retry", "retry"], ["throttle2", "poll", "map"],
+              ["retry", "poll"], ["retry", "flat_map"], ["retry", "map", "poll"], ["retry", "throttle2"]]
     for names in combos:
         layers = [LAYERS[n] for n in names]
         key = "+".join(names)
@@ -87,6 +88,15 @@ def catalog():
                 "setup": [build(layers), sub("other"), sub("S"), ["sleep", 0.01]],
                 "threads": [[["runall", "ex"], ["sleep", 0.5], ["runall", "ex"]], [["cancel", "S"], ["state", "S"]]],
                 "settle": 3, "final": [["runall", "ex"], ["sleep", 2], ["runall", "ex"], ["state", "S"]]}
+    # a cancel that the layer below refuses the first time and accepts the second time (a poll cancel function that vetoes once):
+    # EVERY cancel() is forwarded, not only the first
+    vp = dict(POLL, per_sub={"S.fn": {"after": None}}, cancel=[["ret", False], ["ret", True]])
+    for names, layers in (("poll+retry", [vp, RETRY]), ("poll+retry+map", [vp, RETRY, MAP]), ("poll+map", [vp, MAP])):
+        out["refused-then-accepted/" + names] = {
+            "expect_cancelfn_calls": 2,
+            "setup": [build(layers), sub("S"), ["sleep", 0.01], ["runall", "ex"], ["sleep", 0.25]],
+            "threads": [[["cancel", "S"], ["sleep", 0.25], ["cancel", "S"], ["state", "S"]]],
+            "settle": 2, "final": [["state", "S"]]}
     combs = {
         "f_zip": ["f_zip", ["src", "a"], ["src", "b"], ["src", "c"]], "f_or": ["f_or", ["src", "a"], ["src", "b"], ["src", "c"]],
         "f_and": ["f_and", ["src", "a"], ["src", "b"], ["src", "c"]], "f_sequence": ["f_sequence", ["src", "a"], ["src", "b"], ["src", "c"]],
@@ -214,7 +224,7 @@ def evaluate(case):
                             bad("running-future-did-not-complete-normally", fut=f, final=fin[-1][1])
         # retry: no delegate submit after ANY cancel() returned
         if retry_taps and not case.get("comb"):
-            top_retry = layers[-1]["kind"] == "retry" or all(l["kind"] in ("map", "flat_map", "timeout", "cos") for l in layers[max(i for i, l in enumerate(layers) if l["kind"] == "retry") + 1:])
+            top_retry = layers[-1]["kind"] == "retry" or all(l["kind"] in ("map", "flat_map", "timeout", "cos", "poll") for l in layers[max(i for i, l in enumerate(layers) if l["kind"] == "retry") + 1:])
             if top_retry:
                 tap = retry_taps[-1]
                 late = [x for x in tapsub.get(fn, []) if x[1] == tap and x[0] > sr]
@@ -270,6 +280,17 @@ def evaluate(case):
             for seq in [c["call_seq"] for name in used for c in completes.get(name, [])]:
                 if sc < seq < sr:
                     nt = True
+    # every cancel() of a future whose pending work sits behind a poll cancel function reaches that function
+    want = case["prog"].get("expect_cancelfn_calls")
+    if want is not None:
+        n_cf = len([e for e in s.events if e[3] == "call" and e[4]["fn"].endswith(".cancelfn")])
+        n_cancel = len([o for o in ops if o["op"][0] == "cancel" and o["op"][1] == "S"])
+        fin = [o["result"][1] for o in ops if o["op"][0] == "state" and o["op"][1] == "S" and o["result"][0] == "ok"]
+        if n_cancel == want and n_cf != want:
+            bad("cancel-not-forwarded-every-time", cancel_calls=n_cancel, cancel_function_consulted=n_cf)
+        elif n_cancel == want and fin and not (fin[-1]["done"] and fin[-1]["cancelled"]):
+            bad("second-cancel-accepted-below-but-future-not-cancelled", state=fin[-1])
+        nt = True
     info["nt"] = nt
     return viols, info
 
